@@ -1252,6 +1252,20 @@ class TIMachine(FormatMachine):
         d = first_diff(self.observe(new), self.observe(again))
         if d:
             raise Violation("C05", "C05.upgraded_object_round_trips", "reload-after-upgrade-differs/treeinfo/golden/%s" % diff_key(d), {"diff": d, "k": op.get("k")})
+        if self.cfg.get("focus") == "C17":
+            # the file written for a tree that was READ from a pre-productmd file: its [general] section says what its own
+            # authoritative sections say (family = [release] name, ...), whatever the old file called things
+            doc = inimod.as_dict(first.decode("utf-8"))
+            g, tr, rl = doc.get("general") or {}, doc.get("tree") or {}, doc.get("release") or {}
+            self.count("C17", ["general-of-converted-tree", rl.get("short"), tr.get("arch") == "src"])
+            CTX.probe("c17.general_of_a_tree_read_from_a_pre_productmd_file")
+            for k, sec, opt in (("arch", tr, "arch"), ("platforms", tr, "platforms"), ("family", rl, "name"), ("version", rl, "version")):
+                if sec.get(opt) != g.get(k):
+                    raise Violation("C17", "C17.general_mirrors_authoritative_sections", "general.%s-differs-from-file-section" % k,
+                                    {"field": k, "general": g.get(k), "section": sec.get(opt), "k": op.get("k")})
+            if g.get("name") != "%s %s" % (rl.get("name"), rl.get("version")):
+                raise Violation("C17", "C17.general_mirrors_authoritative_sections", "general.name-differs-from-file-section",
+                                {"general": g.get("name"), "release": [rl.get("name"), rl.get("version")], "k": op.get("k")})
         if not isinstance(new.tree.build_timestamp, float) and first != second:
             raise Violation("C05", "C05.conversion_happens_once", "second-write-differs/treeinfo/golden", {"k": op.get("k")})
         return "ok"
